@@ -28,6 +28,10 @@ def special_lists():
                   + ['lovebaby', 'loveBaby', 'babyLOVE', 'lovewolfBaby', 'love1Baby'], {})
     # two- and three-digit segment lengths
     L['long_segments'] = (['strawberry', 'Strawberry', 'basketball1', 'abcdefghijkl', 'x' * 21, '12345678901', '!!!!!!!!!!!!'], {})
+    # a three-word multi-word, then its two-word tail as a password of its own, then the same multi-words again (anything the
+    # detector remembers between two parse() calls must not change what the second call returns)
+    L['multiword_tails'] = (['love'] * 5 + ['cats'] * 5 + ['dogs'] * 5 + ['lovecatsdogs', 'catsdogs', 'CatsDogs7', 'lovecatsdogs', 'dogscatsdogs',
+                            'lovelovecatsdogs', 'catsdogs1'], {})
     # coverage boundaries
     L['coverage1'] = (['password1', 'Password1', 'love12', 'abc!'], {'coverage': 1})
     return L
